@@ -208,7 +208,7 @@ Section Step.
           -- intro H. inversion H. right. split; [reflexivity|]. eexists _, _. split; [reflexivity|left; symmetry; exact Ew].
           -- destruct (rec m (Sub pm)); cbn [bind]; [|discriminate].
              intro H. inversion H. right. split; [reflexivity|]. eexists _, _. split; [reflexivity|left; symmetry; exact Ew].
-        * destruct (apply_key latest fname) as [s| |?]; cbn [bind]; try discriminate.
+        * destruct (mapped_key_of latest fname) as [s|]; cbn [bind]; try discriminate.
           destruct (sub_of latest s fname); cbn [bind]; try discriminate.
           -- intro H. inversion H. right. split; [reflexivity|]. eexists _, _. split; [reflexivity|right; split; [reflexivity|apply app_suffix_has_dot]].
           -- destruct (rec m (Sub pm)); cbn [bind]; [|discriminate].
